@@ -71,6 +71,16 @@ CHECKS = {
              "search, not a proof; the enumerated sub-scopes are complete.",
         note="Trusts torch tensor equality and the harness-side encoder/decoder in pbt/gen.py (independent of tangermeme.utils). "
              "Alphabets are printable ASCII without 'N'."),
+    "C20": dict(
+        technique="property-based testing (Hypothesis): validity predicate against brute-force enumeration of all single substitutions + chained-step metamorphic relation",
+        category="exploration", design_ref="DESIGN.md §3 C20",
+        text="For generated exact-integer models, sequences (8-40), motif sets (length 1-8 or = L, optionally with the best placement "
+             "planted at L-m / 0 / interior), targets, masks, tol and max_iter, each single greedy step is checked against the loss of "
+             "every (motif, position 0..L-m) candidate computed by separate forward passes (ties allowed), k-step runs must equal k "
+             "chained validated single steps, the loss may never increase and the output must stay one-hot and differ only inside a "
+             "window spelling a motif.",
+        note="args=None only; when the best improvement lies in (0, tol] both applying it and stopping are accepted (the statement "
+             "does not fix this); loss comparisons use a 1e-9 relative tolerance on exact-integer model outputs."),
 }
 
 ALL = ["C%02d" % i for i in range(1, 21)]
